@@ -3,7 +3,7 @@ import itertools
 from ..core import Prop
 from .. import enum
 from ..backend import _as_int
-from .c02 import ins_to_state, _exc
+from .c02 import embed_tableau, ins_to_state, _exc
 from .c03 import read_maps
 
 
@@ -23,6 +23,8 @@ class C08(Prop):
     def models(self):
         # L2: transcribed GF(2) elimination (z2rank, z2inv) against its definition on all matrices up to 3x3 (4x4 thorough)
         self.model("MC_Z2", "MC_Z2_t.cfg" if self.tier == "thorough" else "MC_Z2_q.cfg", name="z2_linear_algebra", workers=4, timeout=3000)
+        for k_, m_ in ((1, 1), (1, 2), (2, 1), (2, 2)):
+            self.model("MC_Pad", "MC_Pad_k%dm%d.cfg" % (k_, m_), name="pad_lemma_k%dm%d" % (k_, m_), workers=4)
         for n in (1, 2):
             self.model("MC_StabSem", "MC_StabSem_c08_n%d.cfg" % n, name="stabsem_n%d" % n, expect_distinct=(7 if n == 1 else 91))
         self.maps = {}
@@ -64,10 +66,32 @@ class C08(Prop):
                 # as a range, and with qubits named more than once (padded to length N: still the same set of qubits)
                 yield dict(s, form=("unsorted", "ndarray", "repeat", "range")[(i + r) % 4], pkg="py")
 
+        # registers across the 64-bit word boundary: an entangled 3..5-qubit tableau on the last qubits of a 66 / 70-qubit
+        # register that is maximally mixed elsewhere (the group stays small enough for TLC to enumerate)
+        for i, (k, m) in enumerate(self.big[:10 if not thorough else 40]):
+            nn = (66, 70)[i % 2]
+            rs = i % (k + 1)
+            rows, r = embed_tableau(ins_to_state(m), rs, nn)
+            regions = [[], list(range(1, nn + 1)), list(range(nn - k + 1, nn + 1)), list(range(1, nn - k + 1))]
+            for _ in range(12):
+                a = rng.sample(range(nn - k + 1, nn + 1), rng.randrange(1, k + 1))
+                b = rng.sample(range(1, nn - k + 1), rng.randrange(0, 4)) + ([64, 65] if rng.random() < 0.5 else [])
+                regions.append(sorted(set(a + b)))
+            yield {"k": "entropy", "rows": rows, "r": r, "regions": regions, "form": ("list", "mask", "ndarray")[i % 3], "pkg": "py"}
+            # the same block next to a computational-basis state: pure for rs = 0 (the pure-state branch of the kernel on
+            # a 132-column tableau); judged through the padding lemma
+            signs = [rng.randrange(2) for _ in range(nn - k)]
+            rows2, r2 = embed_tableau(ins_to_state(m), rs if i % 3 == 2 else 0, nn, signs)
+            yield {"k": "wideentropy", "rows": rows2, "r": r2, "block": {"rows": ins_to_state(m), "r": r2}, "n": nn, "kk": k,
+                   "regions": regions, "form": ("list", "mask", "ndarray")[(i + 1) % 3], "pkg": "py"}
+
     def execute(self, scn, be):
         import numpy
         n = len(scn["rows"]) // 2
         rec = {"op": "entropy", "form": scn["form"], "pre": {"rows": scn["rows"], "r": scn["r"]}, "regions": scn["regions"]}
+        if scn["k"] == "wideentropy":
+            # (no "pre": the register's group is too large for PreValid; the tableau is built by placement from a valid block)
+            rec = {"op": "wideentropy", "form": scn["form"], "block": scn["block"], "n": scn["n"], "k": scn["kk"], "regions": scn["regions"]}
         try:
             S = be.state(scn["rows"], scn["r"])
             vals = []
@@ -109,7 +133,8 @@ class C08(Prop):
                 vals.append(-99 if v is None else v)
             rec["vals"] = vals
             rec["regions"] = regs
-            rec["pre1"] = be.p_state(S)
+            if scn["k"] != "wideentropy":
+                rec["pre1"] = be.p_state(S)
         except Exception as e:
             rec["exc"] = _exc(e)
         return [rec]
